@@ -4,6 +4,8 @@ import (
 	"encoding/hex"
 	"strconv"
 	"strings"
+	"sync/atomic"
+	"time"
 )
 
 func hx(b []byte) string {
@@ -52,3 +54,30 @@ func q(s string) string { return strconv.QuoteToASCII(s) }
 
 // hxsRaw is hex without the "-" convention (node text uses the empty string for empty hex).
 func hxsRaw(s string) string { return hex.EncodeToString([]byte(s)) }
+
+// boundedGen runs a call into the real code that a GENERATOR makes (to decide which cases to emit) under a time limit.
+// After the first call that does not come back no further call is made: every later one reports "not returned" at once,
+// the generator emits its cases unconditionally, and the hang is then found and reported by the cases themselves.
+var genHung atomic.Bool
+
+func boundedGen(f func() string) (string, bool) {
+	if genHung.Load() {
+		return "", false
+	}
+	ch := make(chan string, 1)
+	go func() {
+		defer func() {
+			if r := recover(); r != nil {
+				ch <- "panic"
+			}
+		}()
+		ch <- f()
+	}()
+	select {
+	case r := <-ch:
+		return r, true
+	case <-time.After(10 * time.Second):
+		genHung.Store(true)
+		return "", false
+	}
+}
